@@ -171,6 +171,10 @@ pub fn shrink(history: &[RefMsg], fails: &dyn Fn(&[RefMsg]) -> bool) -> Vec<RefM
 pub fn report_failure(prop: &str, addr: u16, auto: bool, history: &[RefMsg], out: &StepOut, rep: &mut Report) {
     if let Some(p) = &out.panic {
         let (mon, class) = if prop == "C12" { ("no_panic", "panic") } else { ("lockstep_refsign", "panic") };
+        if !rep.wants_violation(mon, class) && crate::util::KNOWN.get().map(|k| k.is_empty()).unwrap_or(true) {
+            rep.count(&format!("violations_raised/{}/{}", mon, class));
+            return;
+        }
         // canonical witness: shrink to a minimal history that still panics at the same place
         let loc = short_loc(&p.loc);
         let small = shrink(history, &|h| matches!(run_history(addr, auto, h), Some((_, o)) if o.panic.as_ref().map(|q| short_loc(&q.loc)) == Some(loc.clone())));
@@ -187,6 +191,10 @@ pub fn report_failure(prop: &str, addr: u16, auto: bool, history: &[RefMsg], out
     } else if prop != "C12" {
         for (class, what) in &out.diffs {
             let cls = *class;
+            if !rep.wants_violation("lockstep_refsign", cls) && crate::util::KNOWN.get().map(|k| k.is_empty()).unwrap_or(true) {
+                rep.count(&format!("violations_raised/lockstep_refsign/{}", cls));
+                continue;
+            }
             let small = shrink(history, &|h| matches!(run_history(addr, auto, h), Some((_, o)) if o.diffs.iter().any(|(c, _)| *c == cls)));
             let what_small = run_history(addr, auto, &small).and_then(|(_, o)| o.diffs.into_iter().find(|(c, _)| *c == cls).map(|(_, w)| w)).unwrap_or_else(|| what.clone());
             let mut d = history_json(addr, auto, &small);
@@ -338,7 +346,13 @@ pub fn explore(cfg: &Cfg, rep: &mut Report, on_step: &mut dyn FnMut(&[Node], usi
     let mut not_expanded = 0u64;
     let mut i = 0usize;
     let mut capped = false;
+    let mut failing = 0u64;
     while i < nodes.len() {
+        if failing > 50_000 {
+            // the property is already refuted thousands of times over: stop burning time
+            capped = true;
+            break;
+        }
         let chunks = nodes[i].pair.model.chunks;
         let mut msgs: Vec<RefMsg> = cfg.msgs.clone();
         for n in [chunks, chunks.wrapping_sub(1), chunks.wrapping_add(1), 0, 65_535] {
@@ -361,7 +375,9 @@ pub fn explore(cfg: &Cfg, rep: &mut Report, on_step: &mut dyn FnMut(&[Node], usi
             let out = step(&mut pair, &m);
             transitions += 1;
             on_step(&nodes, i, &m, &out, rep);
-            if out.panic.is_some() {
+            if out.panic.is_some() || !out.diffs.is_empty() {
+                // implementation and model are out of step: do not explore the product of two diverged machines
+                failing += 1;
                 continue;
             }
             if pair.model.pending.len() > cfg.max_pending || pair.model.chunks > cfg.max_chunks || pair.model.pages.len() > cfg.max_pages {
